@@ -196,7 +196,7 @@ let handle (line : Stdlib.String.t) : Stdlib.String.t =
       let nodes = gen_nodes true p None in
       let en = { e_root = v; e_bind = []; e_caller = caller; e_units = units } in
       let fr = frontier caller units p v in
-      let ex = exec (expand true p (VRoot vx.u_toks)) en in
+      let ex = exec_top true p vx.u_toks en in
       let ok = pat_ok units p in
       Printf.sprintf "F:%s X:%s T:%s ok=%d"
         (match fr with None -> "stuck" | Some es -> Irconv.entries_to_string nodes es)
